@@ -1,9 +1,9 @@
 package main
 
 import (
-	"math/big"
 	"bytes"
 	"fmt"
+	"math/big"
 	"math/rand"
 	"os"
 	"path/filepath"
